@@ -18,19 +18,23 @@ Trace == ndJsonDeserialize(IOEnv.VERIF_TRACE)
 
 CONSTANTS NSMaxNodes, NSMaxEdges,     \* size bounds for the layer-3 predictions (cost of evaluating the models in TLC)
           CBMaxNodes, CBMaxEdges, POMaxNodes
-VARIABLES l, call, prev, cnt
-pvars == <<l, call, prev, cnt>>
+VARIABLES l, call, prev, cnt,
+          xacc,     \* crossings of the orders recorded so far for the components of the current call
+          out       \* the layout the collect loop of autolayout.go must return for the components recorded so far:
+                    \* [nodes |-> seq of <<i, v, x, y, w, h>>, edges |-> seq of <<f, t, ahs, pts>>, shift, exact]
+pvars == <<l, call, prev, cnt, xacc, out>>
+NoOut == [nodes |-> <<>>, edges |-> <<>>, shift |-> 0, exact |-> 1]
 NoCall == [ev |-> "None"]
 NoSnap == [st |-> -1]
 
-PInit == l = 1 /\ call = NoCall /\ prev = NoSnap
+PInit == l = 1 /\ call = NoCall /\ prev = NoSnap /\ xacc = 0 /\ out = NoOut
          /\ cnt = [calls |-> 0, stages |-> 0, drift |-> 0, components |-> 0, l3predictions |-> 0]
 IsEvent(e) == l <= Len(Trace) /\ Trace[l].ev = e /\ l' = l + 1
 Rec == Trace[l]
 Final == IF l' = Len(Trace) + 1 THEN PrintT("STATS " \o ToJson(cnt')) ELSE TRUE
 
 Snap(r) == [st |-> r.st, comp |-> r.comp, nodes |-> r.nodes, edges |-> r.edges, layers |-> r.layers, lh |-> r.lh, exact |-> r.exact,
-            inl |-> r.inl, outl |-> r.outl]
+            inl |-> r.inl, outl |-> r.outl, pts |-> r.pts]
 
 \* ---- layer 3 bound to the code: the network-simplex model predicts the layer of every node exactly.
 \* The model runs on the recorded edge list and the recorded in/out lists of every node (their order is what phase 1 left).
@@ -65,6 +69,38 @@ CBDrift(c, a, s) ==
          \* ... and the order of every node's in- and out-list after the in-place reversals
          \cup If(\A n \in DOMAIN s.nodes : s.inl[n] = R.inl[n] /\ s.outl[n] = R.outl[n], "L3_EdgeListsAsModelled")
 
+\* ---- layer 3 bound to the code: breakLongEdges (phase 3) is deterministic - helper nodes are created while the loop
+\* runs over the GROWING edge list, so a fragment that is still long is broken again when its turn comes.
+\* B = [nodes |-> seq of <<ref, virt, layer>>, edges |-> seq of <<from, to, rev>>, inl, outl |-> per node position, nv]
+BLayer(B, ref) == B.nodes[CHOOSE k \in DOMAIN B.nodes : B.nodes[k][1] = ref][3]
+BIndex(B, ref) == CHOOSE k \in DOMAIN B.nodes : B.nodes[k][1] = ref
+RECURSIVE BreakAll(_, _)
+BreakAll(B, i) ==
+    IF i > Len(B.edges) THEN B
+    ELSE LET e == B.edges[i] IN
+         IF BLayer(B, e[2]) - BLayer(B, e[1]) > 1
+         THEN LET v == -(B.nv + 1)
+                  f == Len(B.edges) + 1
+                  to == BIndex(B, e[2])
+                  B1 == [nodes |-> Append(B.nodes, <<v, 1, BLayer(B, e[1]) + 1>>),
+                         edges |-> Append([B.edges EXCEPT ![i] = <<e[1], v, e[3]>>], <<v, e[2], e[3]>>),
+                         \* the fragment takes the place of e in the in-list of the old target; the helper node gets <<e>> and <<f>>
+                         inl |-> Append([B.inl EXCEPT ![to] = [k \in DOMAIN @ |-> IF @[k] = i THEN f ELSE @[k]]], <<i>>),
+                         outl |-> Append(B.outl, <<f>>),
+                         nv |-> B.nv + 1]
+              IN BreakAll(B1, i + 1)
+         ELSE BreakAll(B, i + 1)
+BLApplies(c, a, s) == /\ c.p3 # "noop" /\ Len(a.nodes) >= 2 /\ Len(a.layers) > 1 /\ Len(a.nodes) <= POMaxNodes
+                      /\ \A i \in DOMAIN a.edges : LayerOfRef(a, a.edges[i][2]) - LayerOfRef(a, a.edges[i][1]) >= 1
+BLDrift(c, a, s) ==
+    IF ~BLApplies(c, a, s) THEN {}
+    ELSE LET B == BreakAll([nodes |-> [k \in DOMAIN a.nodes |-> <<a.nodes[k][1], a.nodes[k][2], a.nodes[k][3]>>],
+                            edges |-> [k \in DOMAIN a.edges |-> <<a.edges[k][1], a.edges[k][2], a.edges[k][3]>>],
+                            inl |-> a.inl, outl |-> a.outl, nv |-> 0], 1)
+         IN If(B.nodes = [k \in DOMAIN s.nodes |-> <<s.nodes[k][1], s.nodes[k][2], s.nodes[k][3]>>], "L3_HelperNodesAsModelled")
+            \cup If(B.edges = [k \in DOMAIN s.edges |-> <<s.edges[k][1], s.edges[k][2], s.edges[k][3]>>], "L3_FragmentsAsModelled")
+            \cup If(B.inl = s.inl /\ B.outl = s.outl, "L3_EdgeListsAfterBreakingAsModelled")
+
 \* ---- layer 3 bound to the code: the positioning models predict every coordinate exactly (x in half units)
 PO == INSTANCE PositionOps
 PosGraph(a) ==
@@ -87,18 +123,61 @@ PODrift(c, a, s) ==
             \cup If(\A i \in DOMAIN s.nodes : 2 * s.nodes[i][5] = x2[i], "L3_XAsModelled_" \o c.p4)
             \cup If(\A i \in DOMAIN s.nodes : s.nodes[i][6] = PO!YOfLayer(G, Q * c.ls, s.nodes[i][3] + 1), "L3_YAsModelled")
 
+\* ---- layer 3 bound to the code: the routers' points are predicted exactly (half units) from the positioned graph
+RO == INSTANCE RouteOps
+RouteGraph(a) ==
+    [x |-> [i \in DOMAIN a.nodes |-> a.nodes[i][5]], y |-> [i \in DOMAIN a.nodes |-> a.nodes[i][6]],
+     w |-> [i \in DOMAIN a.nodes |-> a.nodes[i][7]], h |-> [i \in DOMAIN a.nodes |-> a.nodes[i][8]],
+     virt |-> [i \in DOMAIN a.nodes |-> a.nodes[i][2]], layer |-> [i \in DOMAIN a.nodes |-> a.nodes[i][3]],
+     ef |-> [i \in DOMAIN a.edges |-> IndexOf(a, a.edges[i][1])], et |-> [i \in DOMAIN a.edges |-> IndexOf(a, a.edges[i][2])],
+     lh |-> a.lh]
+ROApplies(c, a, s) == /\ c.p5 \in {"straight", "poly", "ortho"} /\ Len(a.nodes) >= 2 /\ Len(a.nodes) <= POMaxNodes
+                      /\ a.exact = 1 /\ s.exact = 1 /\ "pts" \in DOMAIN s
+                      /\ \A i \in DOMAIN a.edges : LayerOfRef(a, a.edges[i][1]) < LayerOfRef(a, a.edges[i][2])   \* a feasible, proper layering
+Heads(a) == SelectSeq([i \in DOMAIN a.edges |-> i], LAMBDA i : a.edges[i][1] > 0)
+PairUp(q) == [j \in 1..(Len(q) \div 2) |-> <<q[2 * j - 1], q[2 * j]>>]
+RODrift(c, a, s) ==
+    IF ~ROApplies(c, a, s) THEN {}
+    ELSE LET G == RouteGraph(a)
+             hs == Heads(a)
+         IN If(Len(hs) = Len(s.edges) /\ Len(s.pts) = Len(s.edges), "L3_HeadEdgesKeepTheirOrder")
+            \cup If((Len(hs) = Len(s.edges) /\ Len(s.pts) = Len(s.edges)) =>
+                     \A j \in DOMAIN s.edges :
+                        LET want == RO!Route2(G, hs[j], c.p5, Q * c.ls)
+                            got == PairUp(s.pts[j])
+                        IN Len(got) = Len(want) /\ \A m \in DOMAIN got : 2 * got[m][1] = want[m][1] /\ 2 * got[m][2] = want[m][2],
+                     "L3_RoutePointsAsModelled_" \o c.p5)
+
 \* the contract of the stage being entered, between the previous snapshot and the recorded one
 Broken(c, a, s) ==
     CASE s.st = 0 -> (IF a.st \in {-1, 6} THEN {} ELSE {"StageOrder"}) \cup Contract0(c, s.comp, s)
       [] s.st = 1 -> (IF a.st = 0 THEN Contract1(c, a, s) \cup CBDrift(c, a, s) ELSE {"StageOrder"})
       [] s.st = 2 -> (IF a.st = 1 THEN Contract2(c, a, s) \cup NSDrift(c, a, s) ELSE {"StageOrder"})
-      [] s.st = 3 -> (IF a.st = 2 THEN Contract3(c, a, s) ELSE {"StageOrder"})
+      [] s.st = 3 -> (IF a.st = 2 THEN Contract3(c, a, s) \cup BLDrift(c, a, s) ELSE {"StageOrder"})
       [] s.st = 4 -> (IF a.st = 3 THEN Contract4(c, a, s) \cup PODrift(c, a, s) ELSE {"StageOrder"})
-      [] s.st = 5 -> (IF a.st = 4 THEN Contract5(c, a, s) ELSE {"StageOrder"})
+      [] s.st = 5 -> (IF a.st = 4 THEN Contract5(c, a, s) \cup RODrift(c, a, s) ELSE {"StageOrder"})
       [] s.st = 6 -> (IF a.st = 5 THEN Contract6(c, s.comp, a, s) ELSE {"StageOrder"})
       [] OTHER -> {"UnknownStage"}
 
-TraceCall == /\ IsEvent("Call") /\ call' = Rec /\ prev' = NoSnap
+\* the crossing counter as modelled: between two adjacent layers every distinct pair of (upper position, lower
+\* position) counts once (the radix-sort matrix holds one item per cell), strict inversions only
+OrderCrossings(s) ==
+    LET segs(ly) == {<<PosOfRef(s, s.edges[i][1]), PosOfRef(s, s.edges[i][2])>> :
+                        i \in {j \in DOMAIN s.edges : LayerOfRef(s, s.edges[j][1]) = ly - 1 /\ LayerOfRef(s, s.edges[j][2]) = ly}}
+        cross(ly) == Cardinality({p \in segs(ly) \X segs(ly) : p[1][1] < p[2][1] /\ p[1][2] > p[2][2]})
+    IN SumSeq([ly \in 1..(Len(s.layers) - 1) |-> cross(ly)])
+\* the collect loop: nodes (helper nodes only on request) and edges of the finished component, shifted right by the
+\* running shift; the shift then grows by the rightmost "last node of a layer" plus NodeSpacing
+Collect(c, o, s) ==
+    LET keep == SelectSeq(s.nodes, LAMBDA n : n[2] = 0 \/ c.virt = 1)
+        ns == [k \in DOMAIN keep |-> <<IF keep[k][1] > 0 THEN keep[k][1] ELSE 0, keep[k][2], keep[k][5] + o.shift, keep[k][6], keep[k][7], keep[k][8]>>]
+        es == [k \in DOMAIN s.edges |-> <<s.edges[k][1], s.edges[k][2], s.edges[k][5],
+                                           [m \in 1..(Len(s.pts[k]) \div 2) |-> <<s.pts[k][2 * m - 1] + o.shift, s.pts[k][2 * m]>>]>>]
+        lasts == {NodeOf(s, s.layers[ly][Len(s.layers[ly])]) : ly \in {m \in DOMAIN s.layers : s.layers[m] # <<>>}}
+        right == Max({0} \cup {n[5] + n[7] : n \in lasts})
+    IN [nodes |-> o.nodes \o ns, edges |-> o.edges \o es, shift |-> o.shift + right + Q * c.ns,
+        exact |-> IF s.exact = 1 THEN o.exact ELSE 0]
+TraceCall == /\ IsEvent("Call") /\ call' = Rec /\ prev' = NoSnap /\ xacc' = 0 /\ out' = NoOut
              /\ cnt' = [cnt EXCEPT !.calls = @ + 1] /\ Final
 \* the Pipeline action of stage Rec.st: its guard is the phase contract; the Reject twin reports the drift
 TraceStage ==
@@ -107,14 +186,30 @@ TraceStage ==
            B == Broken(call, prev, s)
        IN /\ (IF B = {} THEN TRUE ELSE PrintT("DRIFT " \o ToJson(<<call.case, s.comp, s.st, B>>)))
           /\ prev' = s
+          /\ xacc' = IF s.st = 3 /\ Len(s.layers) > 1 /\ Len(s.nodes) > 1 THEN xacc + OrderCrossings(s) ELSE xacc
+          /\ out' = IF s.st = 6 THEN Collect(call, out, s) ELSE out
           /\ cnt' = [cnt EXCEPT !.stages = @ + 1, !.drift = @ + (IF B = {} THEN 0 ELSE 1),
                                 !.components = @ + (IF s.st = 0 THEN 1 ELSE 0),
                                 !.l3predictions = @ + (IF s.st = 2 /\ prev.st = 1 /\ NSApplies(call, prev, s) THEN 1 ELSE 0)
                                                     + (IF s.st = 1 /\ prev.st = 0 /\ CBApplies(call, prev, s) THEN 1 ELSE 0)
-                                                    + (IF s.st = 4 /\ prev.st = 3 /\ POApplies(call, prev, s) THEN 1 ELSE 0)]
+                                                    + (IF s.st = 4 /\ prev.st = 3 /\ POApplies(call, prev, s) THEN 1 ELSE 0)
+                                                    + (IF s.st = 3 /\ prev.st = 2 /\ BLApplies(call, prev, s) THEN 1 ELSE 0)
+                                                    + (IF s.st = 5 /\ prev.st = 4 /\ ROApplies(call, prev, s) THEN 1 ELSE 0)]
     /\ UNCHANGED call /\ Final
 TraceEnd == /\ (IsEvent("Return") \/ IsEvent("Panic") \/ IsEvent("Abort"))
-            /\ call' = NoCall /\ prev' = NoSnap /\ UNCHANGED cnt /\ Final
+            \* the crossing number reported through the monitor is the crossing number of the recorded orders
+            /\ LET bad == Rec.ev = "Return" /\ call.mon = 1 /\ call.p3 # "noop" /\ SumSeq(Rec.cross) # xacc
+                   \* the returned layout is what the collect loop makes of the recorded components
+                   judged == Rec.ev = "Return" /\ out.exact = 1 /\ Rec.exact = 1
+                   badn == judged /\ [k \in DOMAIN Rec.nodes |-> <<Rec.nodes[k].i, Rec.nodes[k].v, Rec.nodes[k].x, Rec.nodes[k].y, Rec.nodes[k].w, Rec.nodes[k].h>>] # out.nodes
+                   bade == judged /\ [k \in DOMAIN Rec.oe |-> <<Rec.oe[k].f, Rec.oe[k].t, Rec.oe[k].ahs, Rec.oe[k].pts>>] # out.edges
+                   B == (IF bad THEN {"L3_ReportedCrossingsAreOrderCrossings"} ELSE {})
+                        \cup (IF badn THEN {"L2_CollectedNodesAsModelled"} ELSE {}) \cup (IF bade THEN {"L2_CollectedEdgesAsModelled"} ELSE {})
+               IN
+               /\ (IF B # {} THEN PrintT("DRIFT " \o ToJson(<<call.case, 0, 7, B>>)) ELSE TRUE)
+               /\ cnt' = [cnt EXCEPT !.drift = @ + (IF B # {} THEN 1 ELSE 0),
+                                     !.l3predictions = @ + (IF Rec.ev = "Return" /\ call.mon = 1 THEN 1 ELSE 0) + (IF judged THEN 1 ELSE 0)]
+            /\ call' = NoCall /\ prev' = NoSnap /\ xacc' = 0 /\ out' = NoOut /\ Final
 PNext == TraceCall \/ TraceStage \/ TraceEnd
 PSpec == PInit /\ [][PNext]_pvars
 TraceAccepted == TLCGet("stats").diameter - 1 = Len(Trace)
